@@ -48,7 +48,7 @@ def _sym_task(pid, tier, seed, name, opts):
             mod.setup_symbolic()
         _W["mod"] = mod
         _W["scs"] = {s.name: s for s in scs}
-        _W["solver"] = portfolio.Portfolio(inproc_ms=opts.get("inproc_ms", 4000), external_s=opts.get("external_s", 20))
+        _W["solver"] = portfolio.Portfolio(inproc_ms=opts.get("inproc_ms", 2500), external_s=opts.get("external_s", 20))
     mod = _W["mod"]
     scn = _W["scs"][name]
     solver = _W["solver"]
@@ -426,7 +426,7 @@ def main(argv=None):
                         exact = {k: v[0] for k, v in ob["model"].items()}
                     else:
                         ins, exact = inputs, {k: v[0] for k, v in (p["sample"] or {}).items()}
-                    candidates.append(dict(scenario=scn.name, label=ob["label"], inputs=ins, kind="refuted", info=ob.get("info"), exact=exact))
+                    candidates.append(dict(scenario=scn.name, label=ob["label"], inputs=ins, kind="refuted", info=ob.get("info"), exact=exact, uf=ob.get("uf_model", False)))
                 else:
                     cnt["inconclusive"] += 1
                     inconc_list.append("%s path %s: %s: %s" % (scn.name, p["decisions"], ob["label"], ob.get("reason", "")))
@@ -500,7 +500,12 @@ def main(argv=None):
                             hit = dict(label=r["label"], what="observed %r expected %r (found while replaying %s)" % (r["lhs"], r["rhs"], c["label"]))
                             break
         if hit is None:
-            if c["kind"] == "refuted":
+            if c["kind"] == "refuted" and c.get("uf"):
+                # the solver's counterexample interprets log/lgamma/... freely; the real functions agree here
+                cnt["refuted"] -= 1
+                cnt["inconclusive"] += 1
+                inconc_list.append("%s: %s: counterexample relies on an uninterpreted-function model and does not hold for the real function" % (c["scenario"], c["label"]))
+            elif c["kind"] == "refuted":
                 unreproduced.append("%s / %s inputs=%s" % (c["scenario"], c["label"], json.dumps(c["exact"], sort_keys=True)[:300]))
             continue
         k = match_known(known, c["scenario"], hit["label"])
